@@ -297,6 +297,42 @@ def _mb_case(builder, demand_field, leak_status, isolated, existing):
     return Case("%s,leak=%s,isolated=%s,existing=%s" % (builder.__name__, leak_status, isolated, existing), build, crosscheck=False)
 
 
+def _mb_fixed_case(builder, demand_field, leak_status, n_in, n_out):
+    """companion of the prefix-sum cases that does not depend on how the loops over the links are written: a junction with `n_in` inlet and `n_out`
+    outlet links given as plain lists (the loops are unrolled), each link an arbitrary link with an arbitrary isolation flag of its own"""
+    dictname = "mass_balance" if builder is constraint.mass_balance_constraint else "pdd_mass_balance"
+    DEM = EXP_DEMAND if demand_field == "expected_demand" else DEMAND
+
+    def build(cx):
+        n = cx.name("n")
+        kind_facts(cx, n, Junction)
+        ins = [cx.name("inlet%d" % i) for i in range(n_in)]
+        outs = [cx.name("outlet%d" % i) for i in range(n_out)]
+        for l in ins + outs:
+            cx.assume(IS_L(cx.t(l)))
+        import itertools
+        for a, b in itertools.combinations(ins + outs, 2):
+            cx.assume(cx.t(a) != cx.t(b))
+        node = mk_node(cx, Junction, n, _leak_status=leak_status, _is_isolated=False)
+        wn = WN()
+        wn.nodes.append((n, node))
+        wn.inlet[n.t.get_id()] = list(ins)
+        wn.outlet[n.t.get_id()] = list(outs)
+        wn.generic_link = lambda name: cx.obj(Pipe, _link_name=name, _is_isolated=SV(LINK_IS_ISOLATED(name.t), "bool"), _flow=None)
+        m = mk_model(cx)
+        upd = Updater()
+        cx.target(builder.build, m, wn, upd, GenericIter([n]))
+
+        def post(out):
+            if not out.returned:
+                return []
+            mp, w = row_of(m, dictname, n)
+            want = DEM(n.t) - sum((FLOW(l.t) for l in ins), z3.RealVal(0)) + sum((FLOW(l.t) for l in outs), z3.RealVal(0)) + (LEAK_RATE(n.t) if leak_status else 0)
+            return [("row_is_demand_minus_every_inlet_flow_plus_every_outlet_flow_plus_leak", (w.term.t == want) if isinstance(w, Con) else False)]
+        cx.ensure(post)
+    return Case("%s,leak=%s,%d_inlets,%d_outlets" % (builder.__name__, leak_status, n_in, n_out), build, crosscheck=False)
+
+
 def _mb_loop_specs(builder, DEM):
     qual = "wntr.sim.models.constraint:%s.build" % builder.__name__
 
@@ -341,6 +377,10 @@ CONTRACTS = [
              pow_fn=amlmodel.aml_pow, total_arith=True, trusted=TRUST_AML),
     Contract("wntr.sim.models.constraint:pdd_constraint.build", ["C07", "C09"], _pdd_cases, models=MODELS,
              pow_fn=amlmodel.aml_pow, total_arith=True, trusted=TRUST_AML),
+    Contract("wntr.sim.models.constraint:mass_balance_constraint/pdd_mass_balance_constraint.build (fixed numbers of links)", ["C01", "C08", "C09"],
+             [_mb_fixed_case(b_, f_, lk, ni, no) for (b_, f_) in ((constraint.mass_balance_constraint, "expected_demand"), (constraint.pdd_mass_balance_constraint, "demand"))
+              for lk in (False, True) for (ni, no) in ((2, 1), (0, 2), (1, 0))], models=MODELS, pow_fn=amlmodel.aml_pow, total_arith=True, trusted=TRUST_AML,
+             note="structure-independent companion of the prefix-sum contracts below (which cover any number of links but are tied to the shape of the loops)"),
     Contract("wntr.sim.models.constraint:mass_balance_constraint.build", ["C01", "C08", "C09"], _mb_dd, models=MODELS,
              pow_fn=amlmodel.aml_pow, total_arith=True, trusted=TRUST_AML + ["get_links_for_node(n, INLET/OUTLET) enumerates in(n)/out(n) exactly once (contract proved in C14/C01 model.py)"],
              loop_specs=_mb_loop_specs(constraint.mass_balance_constraint, EXP_DEMAND)),
